@@ -685,6 +685,7 @@ def run_s11_s12(chk, repo):
     from rules.C01b import run_theta_sentinels
     run_theta_sentinels(chk, repo, 'S14')
     run_s15(chk, repo)
+    run_s16(chk, repo)
 
 
 def run_s13(chk, repo):
@@ -760,3 +761,61 @@ def run_s15(chk, repo):
                                               'indentation is lost on a no-op round trip')
     if n < 2:
         raise AnalysisError(f'S15: only {n} constructor arguments traced in create_record')
+
+
+def run_s16(chk, repo):
+    """S16: the index of a code record maps node ranges to statement ranges; update_statements consumes one entry per group of
+    old statements and assumes every entry covers at least one statement. An entry whose statement range can be empty
+    (len(s) - len(symbols) .. len(s) with no symbol assigned in the block) is taken for the NEXT statement: its nodes are
+    deleted / kept in place of that statement's. Every entry appended in _parse_tree must be non-empty on every path"""
+    from sa.cfg import CFG
+    from sa import reach
+    S16 = chk.rule('S16', 'code record: every index entry appended by _parse_tree covers at least one statement (a range '
+                          'len(s) - len(X) .. len(s) only under a test that X is not empty)', floor=3)
+    cm = repo.module(f'{NM}.records.code_record')
+    f = cm.functions.get('_parse_tree')
+    if f is None:
+        raise AnalysisError('S16: _parse_tree not found')
+    cfg = CFG(f.node)
+    n = 0
+    for nd in cfg.nodes.values():
+        if nd.ast is None or nd.kind != 'stmt':
+            continue
+        for c in [c for c in ast.walk(nd.ast) if isinstance(c, ast.Call) and isinstance(c.func, ast.Attribute)
+                  and c.func.attr == 'append' and c.args]:
+            t = c.args[0]
+            if isinstance(t, ast.Name):
+                vs = reach.values(cfg, nd.id, t.id) or []
+                t = vs[0][1] if len(vs) == 1 else t
+            if not (isinstance(t, ast.Tuple) and len(t.elts) == 4):
+                continue
+            lo, hi = t.elts[2], t.elts[3]
+            n += 1
+            width = None
+            if isinstance(lo, ast.BinOp) and isinstance(lo.op, ast.Sub) and unparse(lo.left) == unparse(hi):
+                width = lo.right
+            if width is None:
+                chk.instance(S16, f'index entry {unparse(t)[:60]}: width not of the form hi - w .. hi (not decided)')
+                continue
+            if isinstance(width, ast.Constant) and isinstance(width.value, int):
+                ok, why = width.value >= 1, f'constant width {width.value}'
+            else:
+                inner = width.args[0] if isinstance(width, ast.Call) and dotted(width.func) == 'len' and width.args else width
+                x = unparse(inner)
+                ok = False
+                for tst in [q for q in cfg.nodes.values() if q.kind == 'test']:
+                    tx = unparse(tst.ast)
+                    pos = tx in (x, f'len({x})', f'len({x}) > 0', f'len({x}) >= 1', f'len({x}) != 0', f'{x} != set()')
+                    neg = tx in (f'not {x}', f'len({x}) == 0', f'not len({x})')
+                    if (pos and cfg.edge_dominates(tst.id, 'true', nd.id)) or (neg and cfg.edge_dominates(tst.id, 'false', nd.id)):
+                        ok = True
+                why = f'width len({x}) under a non-emptiness test: {ok}'
+            chk.instance(S16, f'index entry {unparse(t)[:60]}: {why}')
+            if not ok:
+                chk.violation(S16, cm.rel, f.qualname, f'append({unparse(t)[:70]})',
+                              'the statement range of this entry is empty when the block assigns nothing: update_statements '
+                              'hands the entry to the next statement', line=c.lineno,
+                              witness='IF (TIME.LT.0) THEN / EXIT 1 100 / END IF followed by V = THETA(2); replacing the '
+                                      'statement V deletes the IF block and keeps the old V line after the new one')
+    if n < 3:
+        raise AnalysisError(f'S16: only {n} index entries found in _parse_tree')
